@@ -23,6 +23,16 @@ MC_CONSTS = {
                         MultCounts="NoMult", MaxDepth=2, MaxOpen=2, EmitAll="FALSE"),
     "thorough_plain": dict(MaxLen=8, NodeToks="Nodes3", SymToks="SymQuick", RingToks="Rings3",
                            MultCounts="NoMult", MaxDepth=2, MaxOpen=2, EmitAll="FALSE"),
+    # one node name, longer strings: ring markers inside / behind branches, several markers on one node,
+    # a '.' in front of a node that opens a ring ...
+    "quick_onename": dict(MaxLen=10, NodeToks="Nodes1", SymToks="SymQuick", RingToks="Rings2",
+                          MultCounts="NoMult", MaxDepth=2, MaxOpen=2, EmitAll="FALSE"),
+    # all five bond symbols at every position of short strings
+    "quick_allsyms": dict(MaxLen=4, NodeToks="Nodes2", SymToks="SymAll", RingToks="Rings1",
+                          MultCounts="NoMult", MaxDepth=1, MaxOpen=1, EmitAll="FALSE"),
+    # multiplied branches three levels deep
+    "quick_mult_nest3": dict(MaxLen=11, NodeToks="Nodes1", SymToks="NoSym", RingToks="NoRings",
+                             MultCounts="Mult2", MaxDepth=3, MaxOpen=1, EmitAll="FALSE"),
     "quick_mult": dict(MaxLen=7, NodeToks="Nodes2", SymToks="SymQuick", RingToks="Rings1",
                        MultCounts="Mult2", MaxDepth=2, MaxOpen=1, EmitAll="FALSE"),
     # one node name, no symbols: deeper nesting and a count of 3 (third-copy and node-0 anchor defects lived here)
@@ -202,6 +212,9 @@ def run_c04(tier):
                   "rendered text; non-trivial = contains a bond symbol, ring marker, branch, multiplier or annotation")
     key = "quick_plain" if tier == "quick" else "thorough_plain"
     toks, r = mc_run(check, key)
+    for extra in ("quick_onename", "quick_allsyms"):
+        more, _ = mc_run(check, extra, invariants=False)
+        toks = toks + more
     check.exhaustive = True
     check.extra["exhaustive_strings"] = len(toks)
     nsim = 300 if tier == "quick" else 3000
@@ -259,7 +272,8 @@ def run_c05(tier):
     key = "quick_mult" if tier == "quick" else "thorough_mult"
     toks, r = mc_run(check, key)
     deep, r2 = mc_run(check, "quick_mult_deep")
-    toks = toks + deep
+    nest3, r3 = mc_run(check, "quick_mult_nest3", invariants=False)
+    toks = toks + deep + nest3
     check.exhaustive = True
     nsim = 200 if tier == "quick" else 2000
     sim, _ = mc_run(check, "sim_mult", invariants=False, simulate=f"num={nsim}", depth=24, seed=common.SEED + 2)
